@@ -432,6 +432,11 @@ def run_recv(seed, nmsgs, seg_kind, consumers, mix_base=True, cut=None, fine=Non
             seq.append(("REQ", first))
         if not sc.open(extra=early_raw[:early]):
             return "connection did not open", {"blocked": sc.s.describe_blocked()}
+        if seg_kind == "huge":
+            # a legal message larger than one socket read (and than the send buffer): 325 kB, then small ones; the reads come one by one
+            mix_base = False
+            seq += [("REQ", sized_request(n, 325084, 0)), ("REQ", sized_request(n, 200, 1)), ("REQ", sized_request(n, 300, 2))]
+            nmsgs = 0
         if seg_kind == "buffer":
             # the peer's burst fills the read buffer exactly (4 messages of 64 KiB = the 256 KiB the transport asks recv() for)
             mix_base = False
@@ -449,7 +454,7 @@ def run_recv(seed, nmsgs, seg_kind, consumers, mix_base=True, cut=None, fine=Non
         raw = b"".join(m.dump() for _k, m in seq)[early:]
         if cut is not None and not 0 < cut < len(raw):
             return None, {"skipped": "cut outside the stream"}
-        segs = [raw[:cut], raw[cut:]] if cut is not None else [raw] if seg_kind == "buffer" else segmentations(raw, rng, seg_kind)
+        segs = [raw[:cut], raw[cut:]] if cut is not None else [raw] if seg_kind in ("buffer", "huge") else segmentations(raw, rng, seg_kind)
         app = [m for k, m in seq if k != "DWR"]
         got = {c: [] for c in range(consumers)}
         share = [len(app) // consumers + (1 if c < len(app) % consumers else 0) for c in range(consumers)]
